@@ -353,6 +353,9 @@ def p2(ctx):
                     ctx.violate(key, p, 'a new future does not start in state Zero')
 
 
+BYVAL_CONV = ('Sender::<T>::to_async', 'AsyncSender::<T>::to_sync', 'Receiver::<T>::to_async', 'AsyncReceiver::<T>::to_sync')
+
+
 @rule('P3', ['C04'], 'raw copies are typed single-element copies of T')
 def p3(ctx):
     for key, b in ctx.facts.bodies.items():
@@ -367,6 +370,8 @@ def p3(ctx):
                 if n not in ('std::ptr::read', 'std::ptr::write', 'std::ptr::copy_nonoverlapping'):
                     ctx.violate(key, None, 'unrecognised raw memory operation %s' % n, at=t.get('at'), sig='rawop:' + n)
                     continue
+                if n == 'std::ptr::read' and fn['args'][:1] and 'Arc<' in fn['args'][0] and 'ChannelInternal' in fn['args'][0] and key in BYVAL_CONV:
+                    continue  # a by-value conversion moving its Arc out of self: not a payload copy; L4 decides whether it is right
                 if fn['args'][:1] != ['T']:
                     ctx.violate(key, None, '%s instantiated at %s instead of the payload type T' % (n, fn['args']), at=t.get('at'), sig='rawop-type')
                 if n == 'std::ptr::copy_nonoverlapping':
